@@ -1940,7 +1940,11 @@ type c16semCase struct {
 
 // c16genSem builds a type of nesting depth `depth` whose only leaf on the chosen path is an int
 // (or bool/string) and a text in which exactly that leaf has the wrong JSON kind.
-func c16genSem(r *rand.Rand, depth int) c16semCase {
+func c16genSem(r *rand.Rand, depth int) c16semCase { return c16genSemLeaf(r, depth, nil, "", "") }
+
+// c16genSemLeaf: as c16genSem; with leafType != nil the faulty leaf has that type, siblings hold `leafGood`
+// and the faulty position holds `leafBad`.
+func c16genSemLeaf(r *rand.Rand, depth int, leafType reflect.Type, leafGood, leafBad string) c16semCase {
 	// leaf
 	type leafT struct {
 		t    reflect.Type
@@ -1961,6 +1965,9 @@ func c16genSem(r *rand.Rand, depth int) c16semCase {
 	typ := lf.t
 	good := lf.good
 	bad := lf.bad[r.IntN(len(lf.bad))]
+	if leafType != nil {
+		lf.t, typ, good, bad = leafType, leafType, leafGood, leafBad
+	}
 	// text pieces: prefix + bad + suffix, built inside out
 	prefix, suffix := "", ""
 	var path []string
@@ -2362,6 +2369,268 @@ func c16ErrPointerTie(c *Ctx) {
 }
 
 // ---------------------------------------------------------------------------------------------
+// (g) user-defined unmarshalers: SemanticError.ByteOffset must be consistent with JSONPointer
+// ---------------------------------------------------------------------------------------------
+
+// Control of the user-defined unmarshalers below (this part runs in one goroutine).
+var (
+	c16uMode   int    // 0 fail before reading anything, 1 after PeekKind, 2 after one ReadToken, 3 after two, 4 after the whole value
+	c16uFailAt int64  // decoder-taking forms fail for the value that starts after this InputOffset …
+	c16uMarker []byte // … []byte-taking forms for the value with exactly these bytes
+	c16uCalls  int    // how often the failing branch ran
+)
+
+var errC16Boom = errors.New("c16 user unmarshaler refuses the value")
+
+func c16uFrom(dec *jsontext.Decoder) error {
+	if dec.InputOffset() != c16uFailAt {
+		return dec.SkipValue()
+	}
+	c16uCalls++
+	switch c16uMode {
+	case 1:
+		dec.PeekKind()
+	case 2:
+		dec.ReadToken()
+	case 3:
+		dec.ReadToken()
+		dec.ReadToken()
+	case 4:
+		dec.SkipValue()
+	}
+	return errC16Boom
+}
+
+func c16uBytes(b []byte) error {
+	if !bytes.Equal(b, c16uMarker) {
+		return nil
+	}
+	c16uCalls++
+	return errC16Boom
+}
+
+type c16UFrom struct{ _ int }
+
+func (*c16UFrom) UnmarshalJSONFrom(dec *jsontext.Decoder) error { return c16uFrom(dec) }
+
+type c16UBytes struct{ _ int }
+
+func (*c16UBytes) UnmarshalJSON(b []byte) error { return c16uBytes(b) }
+
+type c16Plain struct{ V int }
+
+func c16UserUnmarshalers(c *Ctx) {
+	r := c.SubRng(800)
+	n := c.N(30000, 600000)
+	funcFrom := json.WithUnmarshalers(json.UnmarshalFromFunc(func(dec *jsontext.Decoder, _ *c16Plain) error { return c16uFrom(dec) }))
+	funcBytes := json.WithUnmarshalers(json.UnmarshalFunc(func(b []byte, _ *c16Plain) error { return c16uBytes(b) }))
+	forms := []struct {
+		name  string
+		t     reflect.Type
+		opts  []json.Options
+		bytes bool
+	}{
+		{"method-UnmarshalJSONFrom", reflect.TypeOf(c16UFrom{}), nil, false},
+		{"func-UnmarshalFromFunc", reflect.TypeOf(c16Plain{}), []json.Options{funcFrom}, false},
+		{"method-UnmarshalJSON", reflect.TypeOf(c16UBytes{}), nil, true},
+		{"func-UnmarshalFunc", reflect.TypeOf(c16Plain{}), []json.Options{funcBytes}, true},
+	}
+	bads := []string{`"BAD"`, `{"bad":[1,2]}`, `[7,{"bad":1}]`, `77777`, `true`, `{}`, `[]`, `{"b":"x","c":{}}`}
+	modeNames := []string{"before-reading", "after-PeekKind", "after-one-token", "after-two-tokens", "after-whole-value"}
+	for i := 0; i < n; i++ {
+		f := forms[r.IntN(len(forms))]
+		bad := bads[r.IntN(len(bads))]
+		depth := r.IntN(6)
+		sc := c16genSemLeaf(r, depth, f.t, "1", bad)
+		mode := r.IntN(5)
+		if f.bytes {
+			mode = 0
+		}
+		if mode == 3 && !(strings.HasPrefix(bad, `{"`) || strings.HasPrefix(bad, `[7`)) {
+			mode = 2 // a second ReadToken would leave the value
+		}
+		// where the value starts, independently: the tracker's token table of the input
+		sTok := c16run(sc.text, true, true)
+		if sTok.breakAt >= 0 || !sTok.complete {
+			fail("c16: user-unmarshaler generator produced invalid JSON %q", sc.text)
+		}
+		start, end, prevEnd := -1, -1, 0
+		for _, t := range sTok.toks {
+			if t.start == sc.offset && t.kind != ',' && t.kind != ':' {
+				start = t.start
+				break
+			}
+			if t.kind != ',' && t.kind != ':' {
+				prevEnd = t.end
+			}
+		}
+		if start < 0 || !bytes.HasPrefix(sc.text[start:], []byte(bad)) {
+			fail("c16: value %q not found at offset %d of %q", bad, sc.offset, sc.text)
+		}
+		end = start + len(bad)
+		c16uMode, c16uFailAt, c16uMarker, c16uCalls = mode, int64(prevEnd), []byte(bad), 0
+		target := reflect.New(sc.typ)
+		var err error
+		if pn := guard(func() { err = json.Unmarshal(sc.text, target.Interface(), f.opts...) }); pn != nil {
+			c.Panic("Unmarshal-user/"+f.name, sc.text, pn, map[string]any{"type": sc.typ.String()})
+			continue
+		}
+		pos := "nested"
+		switch {
+		case depth == 0:
+			pos = "top-level"
+		case depth == 1:
+			pos = strings.SplitN(sc.shape, ":", 2)[0]
+		}
+		c.Hit("user/" + f.name + "/" + modeNames[mode])
+		c.Hit("user/position-" + pos)
+		c.Case(fmt.Sprint("user:", f.name, mode, sc.typ.String(), string(sc.text)), true)
+		op := "Unmarshal-user/" + f.name + "/" + modeNames[mode]
+		detail := map[string]any{"type": sc.typ.String(), "text": string(sc.text), "value": bad, "want_pointer": sc.pointer,
+			"value_start": start, "value_end": end, "InputOffset_at_call": prevEnd}
+		if c16uCalls != 1 {
+			detail["calls"] = c16uCalls
+			fail("c16: the failing unmarshaler ran %d times for %v", c16uCalls, detail)
+		}
+		var se *json.SemanticError
+		if !errors.As(err, &se) || !errors.Is(err, errC16Boom) {
+			detail["err"] = fmt.Sprint(err)
+			c.Violate("user-error-not-reported", op, sc.text, detail)
+			continue
+		}
+		detail["ByteOffset"], detail["JSONPointer"], detail["err"] = se.ByteOffset, string(se.JSONPointer), err.Error()
+		partial := mode == 2 || mode == 3
+		switch {
+		case !partial && string(se.JSONPointer) != sc.pointer:
+			c.Violate("user-error-pointer-mismatch", op, sc.text, detail)
+		case partial && !jsontext.Pointer(sc.pointer).Contains(se.JSONPointer):
+			c.Violate("user-error-pointer-outside-value", op, sc.text, detail)
+		case mode <= 1 && int(se.ByteOffset) != start:
+			// nothing was consumed: the offset is the first byte of the value the pointer designates
+			c.Violate("user-error-offset-not-at-value-start", op, sc.text, detail)
+		case int(se.ByteOffset) < start || int(se.ByteOffset) > end:
+			c.Violate("user-error-offset-outside-value", op, sc.text, detail)
+		}
+	}
+}
+
+// ---------------------------------------------------------------------------------------------
+// (h) user-defined marshalers: the same consistency on the Marshal side
+// ---------------------------------------------------------------------------------------------
+
+var (
+	c16mTarget int // ID of the value whose MarshalJSONTo fails (-1: none)
+	c16mMode   int // 0 before writing, 1 after '[', 2 after '[' 1, 3 after the whole value
+	c16mCalls  int
+)
+
+type c16MTo struct{ ID int }
+
+func (m c16MTo) MarshalJSONTo(enc *jsontext.Encoder) error {
+	id := jsontext.String("id" + strconv.Itoa(m.ID))
+	if m.ID != c16mTarget {
+		return enc.WriteToken(id)
+	}
+	c16mCalls++
+	switch c16mMode {
+	case 1:
+		enc.WriteToken(jsontext.BeginArray)
+	case 2:
+		enc.WriteToken(jsontext.BeginArray)
+		enc.WriteToken(jsontext.Int(1))
+	case 3:
+		enc.WriteToken(id)
+	}
+	return errC16Boom
+}
+
+type c16MS struct {
+	A int
+	X any `json:"x/~"`
+	Z string
+}
+
+func c16genMarshalValue(r *rand.Rand, depth int, ptr string, next *int, ptrs map[int]string) any {
+	if depth == 0 || r.IntN(4) == 0 {
+		id := *next
+		*next++
+		ptrs[id] = ptr
+		return c16MTo{id}
+	}
+	switch r.IntN(4) {
+	case 0:
+		n := 1 + r.IntN(3)
+		out := make([]any, n)
+		for i := range out {
+			out[i] = c16genMarshalValue(r, depth-1, ptr+"/"+strconv.Itoa(i), next, ptrs)
+		}
+		return out
+	case 1:
+		out := map[string]any{}
+		for _, k := range []string{"a", "k/~", "", "é~1"}[:1+r.IntN(4)] {
+			out[k] = c16genMarshalValue(r, depth-1, ptr+"/"+c16escTok([]byte(k)), next, ptrs)
+		}
+		return out
+	case 2:
+		v := c16genMarshalValue(r, depth-1, ptr, next, ptrs)
+		return &v // pointer hop: no reference token
+	default:
+		return c16MS{A: r.IntN(100), X: c16genMarshalValue(r, depth-1, ptr+"/x~1~0", next, ptrs), Z: "z"}
+	}
+}
+
+func c16UserMarshalers(c *Ctx) {
+	r := c.SubRng(900)
+	n := c.N(8000, 200000)
+	optSets := [][]json.Options{{json.Deterministic(true)}, {json.Deterministic(true), jsontext.Multiline(true)},
+		{json.Deterministic(true), jsontext.SpaceAfterColon(true), jsontext.SpaceAfterComma(true)}}
+	modeNames := []string{"before-writing", "after-begin-array", "after-two-tokens", "after-whole-value"}
+	for i := 0; i < n; i++ {
+		next, ptrs := 0, map[int]string{}
+		v := c16genMarshalValue(r, r.IntN(5), "", &next, ptrs)
+		oi := r.IntN(len(optSets))
+		target, mode, opts := r.IntN(next), r.IntN(4), optSets[oi]
+		c16mTarget = -1
+		var okOut []byte
+		var err error
+		if pn := guard(func() { okOut, err = json.Marshal(v, opts...) }); pn != nil || err != nil {
+			fail("c16: marshal generator: %v %v", pn, err)
+		}
+		marker := []byte(`"id` + strconv.Itoa(target) + `"`)
+		start := bytes.Index(okOut, marker)
+		c16mTarget, c16mMode, c16mCalls = target, mode, 0
+		if pn := guard(func() { _, err = json.Marshal(v, opts...) }); pn != nil {
+			c.Panic("Marshal-user", okOut, pn, nil)
+			continue
+		}
+		op := "Marshal-user/" + modeNames[mode]
+		c.Hit("user/" + op)
+		c.Case(fmt.Sprint("muser:", mode, target, string(okOut)), true)
+		detail := map[string]any{"output_without_failure": string(okOut), "failing_value": string(marker), "value_start": start,
+			"want_pointer": ptrs[target]}
+		var se *json.SemanticError
+		if c16mCalls != 1 || start < 0 || !errors.As(err, &se) || !errors.Is(err, errC16Boom) {
+			detail["err"], detail["calls"] = fmt.Sprint(err), c16mCalls
+			c.Violate("user-error-not-reported", op, okOut, detail)
+			continue
+		}
+		detail["ByteOffset"], detail["JSONPointer"] = se.ByteOffset, string(se.JSONPointer)
+		written := []int{0, 1, 2 + 1, len(marker)}[mode] // bytes the failing call wrote (mode 2 under Multiline: more)
+		switch {
+		case mode != 1 && mode != 2 && string(se.JSONPointer) != ptrs[target],
+			!jsontext.Pointer(ptrs[target]).Contains(se.JSONPointer):
+			c.Violate("user-error-pointer-mismatch", op, okOut, detail)
+		case mode == 0 && int(se.ByteOffset) != start:
+			c.Violate("user-error-offset-not-at-value-start", op, okOut, detail)
+		// after writing, the offset is where the NEXT token would start (OutputOffset + pending delimiter and white space):
+		// at least past what was written; in compact output at most one separator further
+		case int(se.ByteOffset) < start+written || (oi == 0 && int(se.ByteOffset) > start+written+1):
+			c.Violate("user-error-offset-outside-value", op, okOut, detail)
+		}
+	}
+}
+
+// ---------------------------------------------------------------------------------------------
 // (e) coder reuse through the pools and through Reset at the json level
 // ---------------------------------------------------------------------------------------------
 
@@ -2526,7 +2795,7 @@ func runC16(c *Ctx) {
 	parts := []struct {
 		name string
 		f    func(*Ctx)
-	}{{"correspondence", c16Correspondence}, {"decoder", c16Decoder}, {"encoder", c16Encoder}, {"rejected", c16Rejected}, {"semantic", c16Semantic}, {"pooled", c16Pooled}, {"errors.go", c16ErrPointerTie}}
+	}{{"correspondence", c16Correspondence}, {"decoder", c16Decoder}, {"encoder", c16Encoder}, {"rejected", c16Rejected}, {"semantic", c16Semantic}, {"pooled", c16Pooled}, {"errors.go", c16ErrPointerTie}, {"user-unmarshalers", c16UserUnmarshalers}, {"user-marshalers", c16UserMarshalers}}
 	for _, p := range parts {
 		p.f(c)
 	}
